@@ -179,6 +179,17 @@ check(
     "DESIGN.md section 3 / C19",
 )
 
+check(
+    "C14",
+    "differential property-based testing (Hyperscan vs reference tokenizer at candidate and citation level on generated multi-byte documents) + fault injection on the cache file (truncation lengths, bit flips, header fields, garbage) observed from child processes",
+    "Generated-input search plus fault enumeration: candidate containment and genuineness of extras on generated "
+    "documents in the stated character domain; every truncation length class (thorough: every length) and header bit "
+    "of a freshly written cache file, plus sampled body corruptions, must lead to the same tokens as without a cache, "
+    "without raising or crashing.",
+    "Genuineness of an extra candidate is judged on the pattern's core plus the real neighbour characters; the extractor candidates are narrowed with the Aho-Corasick filter (C13).",
+    "DESIGN.md section 3 / C14",
+)
+
 
 def build():
     all_ids = [f"C{i:02d}" for i in range(1, 21)]
